@@ -45,8 +45,8 @@ static void print_item(BufrDescriptor *b){
   switch(b->value->type){
     case VALTYPE_INT8: case VALTYPE_INT32: printf("i%d", bufr_value_get_int32(b->value)); break;
     case VALTYPE_INT64: printf("i%lld", (long long)bufr_value_get_int64(b->value)); break;
-    case VALTYPE_FLT32: { float f = bufr_value_get_float(b->value); uint32_t u; memcpy(&u,&f,4); if(bufr_is_missing_float(f)) printf("fM"); else printf("f%08x", u); break; }
-    case VALTYPE_FLT64: { double d = bufr_value_get_double(b->value); uint64_t u; memcpy(&u,&d,8); if(bufr_is_missing_double(d)) printf("dM"); else printf("d%016llx", (unsigned long long)u); break; }
+    case VALTYPE_FLT32: { float f = bufr_value_get_float(b->value); uint32_t u; memcpy(&u,&f,4); if(b->encoding.type != TYPE_IEEE_FP && bufr_is_missing_float(f)) printf("fM");   /* 2 09 YYY: the pattern itself is the value */ else printf("f%08x", u); break; }
+    case VALTYPE_FLT64: { double d = bufr_value_get_double(b->value); uint64_t u; memcpy(&u,&d,8); if(b->encoding.type != TYPE_IEEE_FP && bufr_is_missing_double(d)) printf("dM"); else printf("d%016llx", (unsigned long long)u); break; }
     case VALTYPE_STRING: { int len=0; const char *s = bufr_value_get_string(b->value,&len); printf("s"); if(s) puthex(stdout,(const unsigned char*)s,len); else printf("NULL"); break; }
     default: printf("?"); break;
   }
